@@ -17,6 +17,19 @@
 #[macro_use]
 extern crate chomp;
 
+#[cfg(dnssector_verif)]
+pub mod verif {
+    use std::cell::Cell;
+    thread_local!(static STEPS: Cell<u64> = Cell::new(0));
+    #[inline]
+    pub fn step() {
+        STEPS.with(|s| s.set(s.get() + 1));
+    }
+    pub fn steps() -> u64 {
+        STEPS.with(|s| s.get())
+    }
+}
+
 pub mod c_abi;
 pub mod compress;
 pub mod constants;
